@@ -697,6 +697,15 @@ fn c07(c: &mut Ctx) {
     // legal-move test of `has_legal_moves` is most delicate
     ps.extend(posgen::f3a(c.thorough));
     ps.extend(posgen::f3c().0);
+    for place in ["7K/8/8/5b2/8/8/7k/8", "8/8/4k3/8/8/3KN3/8/8", "8/8/4k3/8/8/3K4/8/8", "8/8/4kb2/8/8/3KB3/8/8", "8/8/4k3/8/8/3KR3/8/8"] {
+        for side in ["w", "b"] {
+            for mc in [0, 99, 100, 101, 120, 149, 150, 151, 300] {
+                if let Ok(b) = owlchess::Board::from_fen(&format!("{} {} - - {} 90", place, side, mc)) {
+                    ps.push(Pos { sent: *b.raw(), board: b, fam: "C07-draws" });
+                }
+            }
+        }
+    }
     ps.extend(posgen::f3_allpinned());
     ps.extend(posgen::f3_crosspin());
     ps.extend(posgen::f3_manycheckers());
@@ -749,9 +758,15 @@ fn c08(c: &mut Ctx) {
             c.st.family_only(t);
             (r, t)
         };
-        let _ = fam;
         let rt = raw_fmt(&raw);
         c.case("fenformat", &format!("fenformat {}", rt));
+        if fam == "F1" && i % 3 == 0 {
+            // the Board's own formatter (`Board::as_fen`) and its round trip, on the validated board object (its
+            // normalised raw contents are what the case names)
+            if let Some(q) = posgen::pos_of(raw, "F1") {
+                c.case("restored fenformat", &format!("restored 0.0.0.0 fenformat {}", raw_fmt(q.board.raw())));
+            }
+        }
         let fen = raw.to_string();
         c.str_case("fenparse", "fenparse ", &fen, "");
         if i % 4 == 0 {
@@ -793,6 +808,24 @@ fn c08(c: &mut Ctx) {
         c.str_case("fenparse", "fenparse ", s, "");
         if i % 3 == 0 || i < specials.len() {
             c.str_case("fenboard", "fenboard ", s, "");
+        }
+    }
+    // well-known placements with counters that are not those of a new game (a formatter must not recognise the placement
+    // and forget the counters)
+    for fen in [
+        "rnbqkbnr/pppppppp/8/8/8/8/PPPPPPPP/RNBQKBNR w KQkq - 4 3",
+        "rnbqkbnr/pppppppp/8/8/8/8/PPPPPPPP/RNBQKBNR w KQkq - 37 120",
+        "rnbqkbnr/pppppppp/8/8/8/8/PPPPPPPP/RNBQKBNR b KQkq - 1 1",
+        "rnbqkbnr/pppppppp/8/8/8/8/PPPPPPPP/RNBQKBNR w Kq - 0 1",
+        "rnbqkbnr/pppppppp/8/8/8/8/PPPPPPPP/RNBQKBNR w KQkq - 0 2",
+        "4k3/8/8/8/8/8/8/4K3 w - - 0 1",
+        "4k3/8/8/8/8/8/8/4K3 b - - 65535 65535",
+    ] {
+        if let Ok(b) = owlchess::Board::from_fen(fen) {
+            let rt = raw_fmt(b.raw());
+            c.case("fenformat", &format!("fenformat {}", rt));
+            c.case("restored fenformat", &format!("restored 0.0.0.0 fenformat {}", rt));
+            c.case("via fenformat", &format!("via n fenformat {}", rt));
         }
     }
     // a null move made right after a double step: the mark must be gone from the board and from its FEN
@@ -972,6 +1005,13 @@ fn c09(c: &mut Ctx) {
         }
         for t in illegal_san_texts(b, &sm, &lm, 6) {
             strs.insert(t);
+        }
+        // a full origin square with the WRONG piece letter (the text must agree with the man that stands there)
+        for m in lm.iter().filter(|m| m.kind() == MoveKind::Simple).take(3) {
+            let x = if b.get(m.dst()).is_occupied() { "x" } else { "" };
+            for l in ['K', 'Q', 'R', 'B', 'N'] {
+                strs.insert(format!("{}{}{}{}", l, m.src(), x, m.dst()));
+            }
         }
         for _ in 0..2 {
             strs.insert(strgen::random_junk(&mut c.rng));
@@ -1315,6 +1355,26 @@ fn c13(c: &mut Ctx) {
         c.st.chain(&s.steps, s.final_len, &s.obs);
         c.case("chain", &s.line);
     }
+    // every SAN spelling of pseudo-legal moves that are not legal (pinned men, cross pins, king into check), pushed into a
+    // chain: each must be refused and change nothing
+    let mut pinpos: Vec<Pos> = posgen::f3_crosspin().into_iter().step_by(5).collect();
+    pinpos.extend(posgen::f3_allpinned().into_iter().step_by(9));
+    pinpos.extend(posgen::f3b(false).into_iter().step_by(7));
+    for p in pinpos.iter().take(if c.thorough { 400 } else { 70 }) {
+        let sm = semis(&p.board);
+        let lm = true_legal_moves(&p.board);
+        let texts = illegal_san_texts(&p.board, &sm, &lm, 3);
+        if texts.is_empty() {
+            continue;
+        }
+        c.pos(p);
+        let mut steps: Vec<String> = vec!["st".to_string()];
+        for t in texts.iter().take(8) {
+            steps.push(format!("ps {}", str_enc(t)));
+            steps.push("st".to_string());
+        }
+        c.case("chain", &format!("chain {} ; {}", p.raw_text(), steps.join(" ; ")));
+    }
 }
 
 fn c14(c: &mut Ctx) {
@@ -1358,6 +1418,23 @@ fn c14(c: &mut Ctx) {
         let s = chaingen::gen_deep_repeat(&mut c.rng, &p);
         c.st.chain(&s.steps, s.final_len, &s.obs);
         c.case("chain", &s.line);
+    }
+    // repetitions produced by null moves (search code passes the turn): two null moves bring the same position back while
+    // the clock may stay at zero (model correspondence only: a null move is not a move of the rules)
+    for fen in [
+        "rnbqkbnr/pppppppp/8/8/8/8/PPPPPPPP/RNBQKBNR w KQkq - 0 1",
+        "r3k2r/8/8/8/8/8/8/R3K2R b KQkq - 3 9",
+        "4k3/8/8/8/8/8/4P3/4K3 w - - 0 1",
+        "n3k3/8/8/8/8/8/8/4K2R w K - 6 20",
+    ] {
+        if let Ok(b) = owlchess::Board::from_fen(fen) {
+            let p = Pos { sent: *b.raw(), board: b, fam: "C14-null" };
+            c.pos(&p);
+            for tail in ["auto s", "auto r", "auto f"] {
+                let steps = ["st", "pn", "pn", "calc", "pn", "pn", "calc", "st", "pn", "pn", "calc", "pn", "pn", "calc", "pn", "pn", "calc", tail, "st", "pop", "pop", "calc", "st"];
+                c.case("chain", &format!("chain {} ; {}", p.raw_text(), steps.join(" ; ")));
+            }
+        }
     }
 }
 
@@ -1583,6 +1660,33 @@ fn c17(c: &mut Ctx) {
         let s = chaingen::gen_line(&mut c.rng, p, &line);
         c.case("chain", &s.line);
     }
+    // right after a double pawn step, a NON-pawn man lands on the square the pawn passed over (where an en-passant capture
+    // would land): recorded, printed, and the UCI text replayed
+    let mut n_over = 0usize;
+    let mut cand: Vec<Pos> = posgen::f3a(false);
+    for _ in 0..(if c.thorough { 3000 } else { 600 }) {
+        cand.push(c.pool.draw(&mut c.rng));
+    }
+    for p in &cand {
+        let r = p.board.raw();
+        let v = match r.ep_source {
+            Some(s) => s.index(),
+            None => continue,
+        };
+        let dst = if r.side == owlchess::Color::White { v - 8 } else { v + 8 };
+        for m in true_legal_moves(&p.board) {
+            if m.dst().index() == dst && m.src_cell().piece() != Some(Piece::Pawn) && m.src().file() != m.dst().file() {
+                n_over += 1;
+                if n_over > if c.thorough { 300 } else { 50 } {
+                    break;
+                }
+                c.pos(p);
+                let s = chaingen::gen_line(&mut c.rng, p, &[m]);
+                c.case("chain", &s.line);
+            }
+        }
+    }
+    c.st.add("non_pawn_onto_passed_square_lines", n_over as u64);
 }
 
 fn c18(c: &mut Ctx) {
